@@ -106,7 +106,8 @@ impl Monitor for C09 {
         let mut c2 = c.clone();
         if let Some(i) = f.observed.find("U+") {
             let hex: String = f.observed[i + 2..].chars().take_while(|x| x.is_ascii_hexdigit()).collect();
-            c2.aux = Some(format!("chars:{}", hex));
+            let raw = c.aux.as_deref().map_or(false, |a| a.ends_with(";rawhy"));
+            c2.aux = Some(format!("chars:{}{}", hex, if raw { ";rawhy" } else { "" }));
         }
         c2
     }
@@ -120,7 +121,31 @@ impl Monitor for C09 {
         if ci && !node.ranges_case_regular() {
             return Outcome::Inconclusive("range_covers_irregular_case_mappings");
         }
-        let text = node.render();
+        let mut text = node.render();
+        let aux_full = c.aux.clone().unwrap_or_else(|| "quick:0".to_string());
+        let raw_hyphen = aux_full.ends_with(";rawhy");
+        if raw_hyphen {
+            // a literal hyphen written unescaped at the start or the end of the group, where the
+            // grammar reads it as a character ([a-], [-a], [^-a], [a-z-], [a-e-[c-]])
+            let last_hy = |e: &ClassExpr| e.items.len() >= 2 && matches!(e.items.last(), Some(ClassItem::Ch('-')));
+            if let Some(sub) = &ce.sub {
+                if sub.sub.is_none() && last_hy(sub) && text.ends_with("\\-]]") {
+                    text = format!("{}-]]", &text[..text.len() - 4]);
+                }
+            } else if last_hy(&ce) && text.ends_with("\\-]") {
+                text = format!("{}-]", &text[..text.len() - 3]);
+            }
+            if ce.items.len() >= 2 && matches!(ce.items.first(), Some(ClassItem::Ch('-'))) {
+                let lead = if ce.neg { "[^\\-" } else { "[\\-" };
+                if text.starts_with(lead) {
+                    text = format!("{}-{}", &lead[..lead.len() - 2], &text[lead.len()..]);
+                }
+            }
+            if text.contains("\\-") {
+                return Outcome::Inconclusive("raw_hyphen_not_at_group_edge");
+            }
+            obs.count("raw_hyphen_at_group_edge");
+        }
         let pat = format!("^{}$", text);
         let re = match api(engine::compile(&pat, &c.flags, c.dialect), "compile") {
             Ok(Ok(r)) => r,
@@ -129,7 +154,7 @@ impl Monitor for C09 {
         };
         let mut bounds = vec![];
         class_boundaries(&ce, &mut bounds);
-        let aux = c.aux.clone().unwrap_or_else(|| "quick:0".to_string());
+        let aux = aux_full.trim_end_matches(";rawhy").to_string();
         let mut chars = char_set(&aux, &bounds);
         if ci {
             // only over the alphabets of clean one-to-one case pairs plus case-less characters (C11's alphabets)
@@ -221,10 +246,36 @@ impl Monitor for C09 {
                 let mut g = Gen::new(&mut rng, &cfg);
                 g.class(if k % 3 == 0 { 0 } else { 1 })
             };
+            let mut ce = ce;
+            let raw_hyphen = k % 8 == 5;
+            if raw_hyphen {
+                // an unescaped hyphen as the last or first member (of the group or of its subtrahend)
+                ce.items.retain(|it| !matches!(it, ClassItem::Ch('-')));
+                if ce.items.is_empty() {
+                    ce.items.push(ClassItem::Ch('a'));
+                }
+                match (rng.below(3), ce.sub.as_mut()) {
+                    (0, _) => ce.items.insert(0, ClassItem::Ch('-')),
+                    (1, Some(sub)) if sub.sub.is_none() => {
+                        sub.items.retain(|it| !matches!(it, ClassItem::Ch('-')));
+                        if sub.items.is_empty() {
+                            sub.items.push(ClassItem::Ch('a'));
+                        }
+                        sub.items.push(ClassItem::Ch('-'));
+                    }
+                    _ => {
+                        ce.sub = None;
+                        ce.items.push(ClassItem::Ch('-'));
+                    }
+                }
+            }
             let node = Node::Class(ce);
             // flag x must leave class members alone (whitespace, escaped brackets inside a class)
             let mut c = Case::new(&node, if k % 10 == 9 { "i" } else if k % 10 == 8 || k % 10 == 3 { "x" } else { "" }, "");
             c.aux = Some(if w.quick() { format!("quick:{}", rng.next() % 1000) } else { "all".to_string() });
+            if raw_hyphen {
+                c.aux = Some(format!("{};rawhy", c.aux.unwrap()));
+            }
             emit(c);
         }
         J::obj().with("class_expressions_this_shard", J::u(n)).with("scalar_values_per_class", J::s(if w.quick() { "U+0000-U+024F + boundaries +-1 + 2,500 sampled (about 3,200)" } else { "all 1,112,064" })).with("exhaustive_over_scalar_values", J::Bool(!w.quick()))
